@@ -56,7 +56,7 @@ def countD (d s : Str) : Nat := (splitOn d s).length - 1
 
 def startsWith (p s : Str) : Bool := p.isPrefixOf s
 
-def spanSpaces (s : Str) : Str × Str := s.span (· == SPACE)
+def spanSpaces (s : Str) : Str × Str := (s.takeWhile (· == SPACE), s.dropWhile (· == SPACE))
 
 def stripSpaces (s : Str) : Str := ((s.dropWhile (· == SPACE)).reverse.dropWhile (· == SPACE)).reverse
 
